@@ -310,6 +310,32 @@ func ruleR16b(c *Check) {
 					stored = true
 				}
 			}
+			// ... or the field's address is handed to a first-party writer (`stringListInto(list, &target.Tags)`)
+			if !stored {
+				key := fk("loading."+dto, f)
+				for _, g := range c.P.Funcs {
+					if engine.TopFunc(g) != engine.TopFunc(fn) {
+						continue
+					}
+					for _, gb := range g.Blocks {
+						for _, gi := range gb.Instrs {
+							fa, isFA := gi.(*ssa.FieldAddr)
+							if !isFA || engine.FieldKeyOf(fa.X.Type(), fa.Field) != key || fa.Referrers() == nil {
+								continue
+							}
+							for _, r := range *fa.Referrers() {
+								if cs, isCall := r.(ssa.CallInstruction); isCall {
+									for _, cal := range c.G.CalleesOf(cs) {
+										if engine.IsFirstParty(pkgPathOf(cal)) {
+											stored = true
+										}
+									}
+								}
+							}
+						}
+					}
+				}
+			}
 			if !stored {
 				unstored = append(unstored, f)
 			}
